@@ -523,4 +523,40 @@ example : ∃ img, Xcmp.compile demoIp = .ok img := by
     rw [h] at this
     simp at this
 
+/-- `val put = 1; val get = 2; var c; var n;
+     proc main() is
+     { n := 0; c := get(0);
+       while c ~= 10 do { put(c, 0); n := n + 1; c := get(0) };
+       if 2(0) = 66 then n := n + 100 else skip;
+       while 255 ~= get(0) do n := n + 1000;
+       0(n) }` -/
+def demoIn : X.Program :=
+  { globals := [.val "put" (.num 1), .val "get" (.num 2), .var "c", .var "n"],
+    procs := [
+      { isFunc := false, name := "main", formals := [], locals := [],
+        body := .seq [.assign "n" (.num 0), .assign "c" (.call "get" [.num 0]),
+                      .while (.bin .ne (.name "c") (.num 10))
+                        (.seq [.call "put" [.name "c", .num 0], .assign "n" (.bin .plus (.name "n") (.num 1)),
+                               .assign "c" (.call "get" [.num 0])]),
+                      .ite (.bin .eq (.syscall 2 [.num 0]) (.num 66)) (.assign "n" (.bin .plus (.name "n") (.num 100))) .skip,
+                      .while (.bin .ne (.num 255) (.call "get" [.num 0])) (.assign "n" (.bin .plus (.name "n") (.num 1000))),
+                      .syscall 0 [.name "n"]] }] }
+
+/-! Non-vacuity for INPUT: `demoIn` (system call 2 through the constant `get` and as `2(0)`, as a
+    whole right-hand side and under `=` / `~=` next to a constant in the conditions of `if` and
+    `while`) is in the class V2; on the input "hi\nB" followed by two more bytes it echoes the
+    first line, reads to the end of the input (six bytes consumed, then the end-of-input value)
+    and exits with 2102. -/
+example : C01s.v2Ok demoIn = true := by decide +kernel
+example : (match X.run demoIn ⟨[104, 105, 10, 66, 1, 2], fun _ => []⟩ 5000 with
+    | .defined β => β.exit == 2102 && β.events.length == 9 && β.stdinConsumed == 6
+    | _ => false) = true := by decide +kernel
+example : ∃ img, Xcmp.compile demoIn = .ok img := by
+  cases h : Xcmp.compile demoIn with
+  | ok img => exact ⟨img, rfl⟩
+  | error e =>
+    have : (match Xcmp.compile demoIn with | .ok _ => true | .error _ => false) = true := by decide +kernel
+    rw [h] at this
+    simp at this
+
 end Hex.C01
